@@ -4,7 +4,8 @@ C12 — system event triggers run once each, in phase and registration order.
 
 Model: `TwistedModel/Reactor/ThreePhase.lean` (`_ThreePhaseEvent` of `twisted/internet/base.py`).
 A history is any finite list of ops `add / remove / fire / ret r / fireD d`, consumed by the top
-level or by the trigger that is executing; `run ops` is the state after it, `(run ops).log` the
+level or by the trigger that is executing (a `fireD` consumed by a trigger is that trigger calling
+`.callback/.errback` on a Deferred — `fireDIn`); `run ops` is the state after it, `(run ops).log` the
 event log (`ran ph k` = the event called trigger `k` from list `ph`).  Every theorem below is
 for ALL histories (no bound on length, number of triggers, nesting of registrations inside
 triggers, order in which Deferreds fire), and speaks about EVERY call of a trigger:
@@ -161,6 +162,41 @@ theorem firing_complete_iff_state_base (ops : List Op) (hno : (run ops).overlapp
     · intro hh; rw [h2] at hh; cases hh
     · intro hh; rw [h1] at hh; cases hh
 
+/-- **In-trigger Deferred firing is harmless (model fidelity of `fireDIn`).**  Absent overlapping
+    firings, whenever a trigger is executing no DeferredList of this event is waiting — so a
+    Deferred fired from inside a trigger body (e.g. a later before-trigger firing the Deferred an
+    earlier before-trigger returned) has nothing of the event attached to it and cannot start the
+    during phase from inside the `while self.before` loop.  With `during_waits_for_all_before_deferreds`
+    (which is over ALL histories, those with in-trigger firings included) this is the gate for
+    Deferreds "fired in every order", synchronous firing during the before phase included. -/
+theorem in_trigger_nothing_waits (ops : List Op) (hno : (run ops).overlapped = false)
+    (hrun : (run ops).ctl ≠ .idle) : (run ops).waiting = [] := by
+  have h := (G3_run ops hno).ctl
+  unfold Ctl3 at h
+  split at h
+  · exact h.2.1
+  · rename_i hi; exact absurd hi hrun
+  · exact h.2.w
+
+/-- …and such a firing only marks the Deferred as fired: lists, control state, `state`,
+    DeferredLists and the pending `beforeResults` are untouched. -/
+theorem in_trigger_fire_only_marks (s : St) (d : Nat) (hrun : s.ctl ≠ .idle) (hno : s.overlapped = false) :
+    let t := step s (.fireD d)
+    t.before = s.before ∧ t.during = s.during ∧ t.after = s.after ∧ t.ctl = s.ctl ∧
+    t.inBefore = s.inBefore ∧ t.waiting = s.waiting ∧ t.results = s.results ∧ t.finished = s.finished ∧
+    ∀ d', d' ∈ t.fired ↔ d' ∈ s.fired ∨ d' = d := by
+  simp only [step, if_neg hrun, hno, Bool.false_eq_true, if_false, fireDIn]
+  split
+  · rename_i hc
+    refine ⟨rfl, rfl, rfl, rfl, rfl, rfl, rfl, rfl, fun d' => ?_⟩
+    simp only [St.emit]
+    constructor
+    · exact Or.inl
+    · rintro (h | h)
+      · exact h
+      · subst h; simpa using hc
+  · exact ⟨rfl, rfl, rfl, rfl, rfl, rfl, rfl, rfl, fun d' => by simp⟩
+
 /-- **Exception isolation.**  A trigger that raises is, for the event, the same as one that
     returns `None`: all the theorems above hold with any mixture of raising triggers, and the
     state (hence every later call) is identical. -/
@@ -232,5 +268,25 @@ example : ∃ pre post, (run demo).log = pre ++ Ev.ran .during 5 :: post ∧
   refine ⟨((run demo).log.take 17), ((run demo).log.drop 18), by decide, by decide, by decide⟩
 /-- the model does distinguish waiting from running: before Deferred 0 fires nothing of `during` ran -/
 example : calls (run (demo.take 13)) = [1, 2, 6] ∧ (run (demo.take 13)).waiting = [[0]] := by decide
+
+/-! ### non-vacuity: Deferreds fired from inside trigger bodies -/
+
+/-- before 1 returns Deferred 0; before 2 fires it from its own body and returns Deferred 1; before 3
+    (which raises) and during 4 / after 5 are still to come; Deferred 1 is fired at top level while
+    the firing waits; during 4 fires an unrelated Deferred 7 from its body -/
+def demoIn : List Op :=
+  [.add .before 1, .add .before 2, .add .before 3, .add .during 4, .add .after 5, .fire,
+   .ret (.deferred 0), .fireD 0, .ret (.deferred 1), .ret .raise, .fireD 1, .fireD 7, .ret .none, .ret .none]
+
+example : Fresh demoIn := by decide
+example : (run demoIn).overlapped = false := by decide
+example : (run demoIn).ctl = .idle ∧ (run demoIn).waiting = [] := by decide
+/-- firing Deferred 0 inside before-trigger 2 does not start the during phase: 3 still runs first,
+    and 4, 5 run only once Deferred 1 has fired as well (Deferred 7 is fired from inside during-trigger 4) -/
+example : (run demoIn).log.filter (fun e => e matches .dfired _ ∨ e matches .ran _ _) =
+    [.ran .before 1, .ran .before 2, .dfired 0, .ran .before 3, .dfired 1, .ran .during 4, .dfired 7,
+     .ran .after 5] := by decide
+example : (run (demoIn.take 10)).waiting = [[1]] ∧ calls (run (demoIn.take 10)) = [1, 2, 3] := by decide
+example : (run (demoIn.take 8)).ctl = .runB ∧ (run (demoIn.take 8)).waiting = [] := by decide
 
 end TwistedProps.C12
